@@ -169,6 +169,7 @@ def cache_sequence(t2: int, t3: int, e2: bool, e3: bool, k1: bool, k3: bool, mut
     t2, t3, sh = hlib.concrete(t2, 0, 12), hlib.concrete(t3, 0, 12), hlib.concrete(sh, -1, 2)
     if hlib.PARAM.get("quick"):
         hlib.assume(sh == -1 or t1 == 12)          # quick tier: builtin shadowing only on the builtin-calling text
+        hlib.assume(t1 != 12 or t2 in (0, 5, 12))
     steps = [(t1, True if k1 else False, False), (t2, True, True if e2 else False), (t3, True if k3 else False, True if e3 else False)]
     mutate, warm = (True if mutate else False), (True if warm else False)
     with hlib.native():
